@@ -62,6 +62,10 @@ Proof. exact io_write_is_AWrite. Qed.
 Theorem C04_call_source_is_model : forall (c : hcall) (s : hstate) (r : hres) (s' : hstate) (arg : val), hstep c s = Some (r, s') -> gen_call c (enc_state s) arg = (enc_state s', enc_res c r).
 Proof. exact call_source_is_model. Qed.
 
+(* ... and the system's ARead of a server Channel.Close is the Core's step: verdict behind the queued reply, slot and mailbox gone, other slots untouched, CloseOk(n) queued *)
+Theorem C04_io_close_is_ARead_close : forall (n code : N) (text dbg : str) (c : core) (s : slot), steady c -> n <> 0 -> alookup n (c_slots c) = Some s -> s_consumers s = [] -> reply_queue_ok c n -> (Datatypes.length (view_replyq c n) <= 1)%nat -> exists c' : core, process c (FMethod n (MChanClose code text), dbg) = (OOk, c') /\ alookup n (c_slots c') = None /\ items_of (s_reply s) (c_qs c') = Some (view_replyq c n ++ [IReplyErr (EServerClosedChannel n code text)])%list /\ (forall k : N, k <> n -> alookup k (c_slots c') = alookup k (c_slots c)) /\ c_out c' = ob_append (c_out c) (ser_chan_close_ok n).
+Proof. exact io_close_is_ARead_close. Qed.
+
 (* non-vacuity: Queue.DeclareOk("q", 7, 2) on channel 3 lands in slot 3's reply queue (id 5) *)
 Example C04_example :
   let s := {| s_mail := []; s_mail_tx := true; s_reply := 5; s_coll := CNone;
@@ -106,6 +110,7 @@ Check C04_io_read_is_ARead : forall (n : N) (m : smethod) (dbg : str) (c : core)
 Check C04_io_drain_is_ADrain : forall (n : N) (bufs : list bytes) (c : core) (s : slot), n <> 0 -> alookup n (c_slots c) = Some s -> s_mail s = map MsgSend bufs -> s_mail_tx s = true -> ob_sealed (c_out c) = false -> exists (c' : core) (k : nat), handle_event c (EvChan n) = (OOk, c', []) /\ view_mail c' n = map MsgSend (skipn k bufs) /\ ob (c_out c') = (ob (c_out c) ++ concat (firstn k bufs))%list /\ (forall j : N, j <> n -> view_mail c' j = view_mail c j) /\ c_qs c' = c_qs c /\ c_phase c' = c_phase c.
 Check C04_io_write_is_AWrite : forall (c : core) (oracle : list wr) (bs : bytes) (wr0 : wres) (ob' : outbuf) (rest : list wr), write_to_stream (c_out c) oracle = (bs, wr0, ob', rest) -> wr0 = WOk -> exists c' : core, handle_event c (EvStream (Some oracle) None) = (OOk, c', bs) /\ (bs ++ ob (c_out c'))%list = ob (c_out c) /\ (forall k : N, view_mail c' k = view_mail c k) /\ (forall k : N, view_replyq c' k = view_replyq c k).
 Check C04_call_source_is_model : forall (c : hcall) (s : hstate) (r : hres) (s' : hstate) (arg : val), hstep c s = Some (r, s') -> gen_call c (enc_state s) arg = (enc_state s', enc_res c r).
+Check C04_io_close_is_ARead_close : forall (n code : N) (text dbg : str) (c : core) (s : slot), steady c -> n <> 0 -> alookup n (c_slots c) = Some s -> s_consumers s = [] -> reply_queue_ok c n -> (Datatypes.length (view_replyq c n) <= 1)%nat -> exists c' : core, process c (FMethod n (MChanClose code text), dbg) = (OOk, c') /\ alookup n (c_slots c') = None /\ items_of (s_reply s) (c_qs c') = Some (view_replyq c n ++ [IReplyErr (EServerClosedChannel n code text)])%list /\ (forall k : N, k <> n -> alookup k (c_slots c') = alookup k (c_slots c)) /\ c_out c' = ob_append (c_out c) (ser_chan_close_ok n).
 
 Print Assumptions C04_routing.
 Print Assumptions C04_bogus.
@@ -122,5 +127,6 @@ Print Assumptions C04_io_read_is_ARead.
 Print Assumptions C04_io_drain_is_ADrain.
 Print Assumptions C04_io_write_is_AWrite.
 Print Assumptions C04_call_source_is_model.
+Print Assumptions C04_io_close_is_ARead_close.
 Print Assumptions C04_example.
 Print Assumptions C04_system_example.
